@@ -82,6 +82,7 @@ def pE : Nat → List String → Option (E × List String)
     | 'K' => un (.bracket · (.str (decStr tl)))
     | 'D' => un (.bracket · (.num (decStr tl)))
     | 'P' => un .paren
+    | 'J' => un .parseJson
     | 'U' => un .upper
     | 'W' => un .lower
     | 'T' => un .trim
@@ -110,11 +111,12 @@ def encVal : Val → String
   | .err .conv => "Econv"
   | .err .binder => "Ebinder"
   | .err .parser => "Eparser"
+  | .err .invalid => "Einvalid"
   | .unsup => "U"
 
 /-- does the expression contain an operand that errs or is outside the model strictly below the root?
     (DuckDB may or may not evaluate it: outside the model) -/
-def innerBad (doc : Json) (ev : Json → E → Val) : E → Bool
+def innerBad (doc : Env) (ev : Env → E → Val) : E → Bool
   | .bin _ a b => bad a || bad b || innerBad doc ev a || innerBad doc ev b
   | .not a => bad a || innerBad doc ev a
   | .paren a => innerBad doc ev a
@@ -137,7 +139,7 @@ def isPathJx : E → Bool
   | _ => false
 
 /-- the finding regions (keys of KNOWN_FINDINGS.txt), decided on the source tree and the document -/
-def regions (doc : Json) : E → List String
+def regions (doc : Env) : E → List String
   | .col => []
   | .lit _ => []
   | .jx x _ => regions doc x
@@ -146,6 +148,7 @@ def regions (doc : Json) : E → List String
     (if !i.ok then ["C11/bracket-key-unescaped"] else []) ++
     (match x with | .bracket _ _ => ["C11/chained-brackets"] | _ => []) ++ regions doc x
   | .paren x => regions doc x
+  | .parseJson x => regions doc x
   | .cast x _ => conv x ++ regions doc x
   | .upper x => conv x ++ regions doc x
   | .lower x => conv x ++ regions doc x
@@ -178,11 +181,32 @@ def encRows : Except Err (List Val) → String
   | .error .conv => "Econv"
   | .error .binder => "Ebinder"
   | .error .parser => "Eparser"
+  | .error .invalid => "Einvalid"
+
+/-- `text=tokens` pairs (tokens `,`-separated; `!` = the text is not JSON) -/
+def parseEnvPair (s : String) : Option (List Char × Option Json) :=
+  match s.splitOn "=" with
+  | [k, "!"] => some (decStr k, none)
+  | [k, v] => (parseJson (v.replace "," ";")).map fun j => (decStr k, some j)
+  | _ => none
+
+def evalReply (d : Env) (e : E) : String :=
+      let spec := evalSpec d e
+      let impl := evalDuck d (pipeline e)
+      if spec == .unsup || impl == .unsup || innerBad d evalSpec e then "unsupported"
+      else
+        let rs := regions d e
+        s!"spec={encVal spec}\timpl={encVal impl}\tfinding={if rs.isEmpty then "-" else ",".intercalate rs}\tsrcok={encBool (SrcOK e)}\tprecok={encBool (PrecOK (pipeline e))}\tprecok_noparen={encBool (PrecOK (pipelineNoParen e))}"
 
 def handle : List String → String
+  | ["eval", doc, expr, env] =>
+    match parseJson doc, parseE expr, (decList env).mapM parseEnvPair with
+    | some d, some e, some ps => evalReply { doc := d, pj := fun s => (ps.find? (·.1 == s)).map (·.2) } e
+    | _, _, _ => "bad-op"
   | ["eval", doc, expr] =>
     match parseJson doc, parseE expr with
-    | some d, some e =>
+    | some d0, some e =>
+      let d : Env := { doc := d0 }
       let spec := evalSpec d e
       let impl := evalDuck d (pipeline e)
       if spec == .unsup || impl == .unsup || innerBad d evalSpec e then "unsupported"
